@@ -690,12 +690,18 @@ func main() {
 	specs = append(specs, coresim.WorkflowSpec{Name: "c02-pb", Hosts: []string{"hostB"}, Tasks: []coresim.TaskSpec{{Name: "t0", Class: "c02pb0", Mode: "direct", Critical: true, Host: "hostB"}}})
 	coresim.GlobalSetup(specs...)
 	var scs []*vrt.Scenario
-	for _, s := range shapes {
+	for k, s := range shapes {
 		for _, tg := range []string{"DEPLOY", "CONFIGURE", "START", "STOP", "RESET", "CONFIGURE2"} {
 			if len(s.crit) >= 3 {
 				scs = append(scs, scenario(s, tg, false, vrt.Bounds{Dev: 0, Seconds: 100}, vrt.Bounds{Dev: 1, Seconds: 60}))
 			}
-			scs = append(scs, scenario(s, tg, true, vrt.Bounds{Dev: 0, Seconds: 100}, vrt.Bounds{Dev: 1, Seconds: 60}))
+			// thorough budget: the shapes added by the gap analysis get 20 s each (a capped run says exhaustive=false),
+			// which keeps the thorough tier of the property at about half an hour
+			tb := vrt.Bounds{Dev: 1, Seconds: 60}
+			if k >= 7 {
+				tb.Seconds = 20
+			}
+			scs = append(scs, scenario(s, tg, true, vrt.Bounds{Dev: 0, Seconds: 100}, tb))
 		}
 	}
 	for _, s := range shapes {
@@ -704,7 +710,7 @@ func main() {
 			nonCritical = nonCritical || !c
 		}
 		if nonCritical {
-			scs = append(scs, history(s, vrt.Bounds{Dev: 0, Seconds: 100}, vrt.Bounds{Dev: 1, Seconds: 120}))
+			scs = append(scs, history(s, vrt.Bounds{Dev: 0, Seconds: 100}, vrt.Bounds{Dev: 1, Seconds: 45}))
 		}
 	}
 	for _, op := range []string{"START", "RESET"} {
